@@ -776,14 +776,14 @@ func C06() *check.Property {
 		Title:    "Unsubscribe cuts delivery; IsClosed, Wait and Collect tell the truth",
 		Patterns: CorePatterns,
 		Scope:    []string{ro},
-		Rules:    []check.Rule{ruleUnsubFlipsFirst(), ruleNoProducerLockInQueries(), ruleSelfUnsubscribe(), ruleWaitSignal(), ruleCollectWaits(), ruleFinalizerDiscipline(), ruleGatesOf(false), ruleWaitImplementors(), ruleCallbackReentrancy(), ruleNoEmitUnderTeardownLock(), ruleSubjectDelivers(), ruleTeardownDoesNotNotify()},
+		Rules:    []check.Rule{ruleUnsubFlipsFirst(), ruleNoProducerLockInQueries(), ruleSelfUnsubscribe(), ruleWaitSignal(), ruleCollectWaits(), ruleFinalizerDiscipline(), ruleGatesOf(false), ruleWaitImplementors(), ruleCallbackReentrancy(), ruleNoEmitUnderTeardownLock(), ruleSubjectDelivers(), ruleTeardownDoesNotNotify(), ruleInnerTerminalBeforeDestination()},
 		Explanation: "Static ordering / who-may-lock checks over subscriber.go, subscription.go and observable.go. Unsubscribe closes the status word (won compare-and-swap) before running finalizers, so with the Next gate of C01 a notification whose emission starts after Unsubscribe returned " +
 			"is refused; the query methods and Unsubscribe never take the producer lock (callable from inside a callback); terminal notifications are delivered before the subscriber closes itself; Wait blocks only on a buffered channel signalled solely by a teardown it registers " +
 			"(run at once if already closed), so it returns iff the subscription is or gets closed; Collect waits on the collecting subscription before every return and returns exactly what its observer gathered; Unsubscribe is idempotent (FINALIZER-DISCIPLINE); no other type shortcuts Wait (WAIT-IMPLEMENTORS); no subject notifies an observer while holding a lock its subscriber teardown takes, so Unsubscribe from inside a callback cannot dead-lock (CALLBACK-REENTRANCY).",
 		NotDecided:  "the real-time ordering 'began afterwards' itself (follows from the compare-and-swap and the gate; argued, not model-checked); concurrent callers beyond the guarded-by discipline.",
 		Assumptions: []string{"sync/atomic, sync.Mutex and channel semantics"},
 		Floors:      map[string]int{"query_methods": 4, "gated_calls": 3, "field_accesses": 8, "subject_deliveries_checked": 3, "scs_with_locking_teardown": 8, "teardown_notifications": 1},
-		Controls:    map[string]string{"zz_verif_controls_c06.go": roControl(controlsC06 + controlsTeardownNotify)},
+		Controls:    map[string]string{"zz_verif_controls_c06.go": roControl(controlsC06 + controlsTeardownNotify + controlsInnerTerminal)},
 	}
 }
 
@@ -865,6 +865,77 @@ func ruleTeardownDoesNotNotify() check.Rule {
 	}
 }
 
+// INNER-TERMINAL-BEFORE-DESTINATION: what the teardown sends pre-empts what a callback sends after its own terminal.
+func ruleInnerTerminalBeforeDestination() check.Rule {
+	return check.Rule{
+		Name:        "INNER-TERMINAL-BEFORE-DESTINATION",
+		NeedControl: true,
+		Doc:         "in an operator whose teardown sends a terminal notification to inner observers it handed downstream (groups), a source callback that sends those observers a terminal of another kind does so before it sends the destination its terminal: the destination's subscriber runs the teardown inside that terminal (once the subscribe function has returned, i.e. for any asynchronous source), the teardown terminates the inner observers first and the callback's notification is dropped — a source error reaches the groups as Complete",
+		Run: func(c *check.Ctx) {
+			m := c.M
+			n := 0
+			for _, sc := range m.SCs {
+				if !c.Armed(sc) && !check.IsControlName(sc.Name) {
+					continue
+				}
+				// what the teardown sends pre-empts what a callback sends after its own terminal to the destination: the
+				// destination's subscriber runs the teardown inside that terminal (once the subscribe function has returned,
+				// i.e. for any asynchronous source). An Error sent to the inner observers after destination.Error finds them
+				// already completed by the teardown: the failure reaches them as a normal completion
+				tdKinds := map[int]bool{}
+				for _, e := range sc.Emits {
+					if e.ToDest {
+						continue
+					}
+					for cx := e.Ctx; cx != nil; cx = cx.Parent {
+						if cx.Kind == model.KTeardown {
+							tdKinds[e.Kind] = true
+						}
+					}
+				}
+				if len(tdKinds) > 0 {
+					for _, e := range sc.Emits {
+						if e.ToDest || e.Ctx == nil || e.Ctx.Kind != model.KSrc || e.Kind == model.EmitNext || tdKinds[e.Kind] {
+							continue
+						}
+						for _, d := range sc.Emits {
+							if d.ToDest && d.Ctx == e.Ctx && d.Slot == e.Slot && d.Kind != model.EmitNext && d.Pos < e.Pos {
+								n++
+								c.Report(c.Armed(sc), e.Key+"/after-destination-terminal", e.Pos, "this %s notification to an inner observer is sent after the terminal notification to the destination, which runs the operator's teardown — and the teardown sends the inner observers a different terminal first: with an asynchronous source the inner observers receive that one and this notification is dropped (a source error reaches the groups as Complete)", model.SlotNames[e.Kind])
+								break
+							}
+						}
+					}
+				}
+			}
+			_ = m
+			c.Inc("inner_terminals_after_destination", n)
+		},
+	}
+}
+
+const controlsInnerTerminal = `
+func verifControlInnerAfterDestination[T any]() func(Observable[T]) Observable[Observable[T]] {
+	return func(source Observable[T]) Observable[Observable[T]] {
+		return NewUnsafeObservableWithContext(func(subscriberCtx context.Context, destination Observer[Observable[T]]) Teardown {
+			inner := NewUnicastSubject[T](16)
+			destination.NextWithContext(subscriberCtx, inner)
+			sub := source.SubscribeWithContext(subscriberCtx, NewObserverWithContext(
+				inner.NextWithContext,
+				func(ctx context.Context, err error) {
+					destination.ErrorWithContext(ctx, err)
+					inner.ErrorWithContext(ctx, err)
+				},
+				destination.CompleteWithContext))
+			return func() {
+				sub.Unsubscribe()
+				inner.CompleteWithContext(subscriberCtx)
+			}
+		})
+	}
+}
+`
+
 const controlsTeardownNotify = `
 func verifControlTeardownNotifies[T any]() func(Observable[T]) Observable[Observable[T]] {
 	return func(source Observable[T]) Observable[Observable[T]] {
@@ -881,4 +952,3 @@ func verifControlTeardownNotifies[T any]() func(Observable[T]) Observable[Observ
 	}
 }
 `
-
